@@ -195,7 +195,7 @@ def make_run(opname, version):
             # response is judged like any other
             warm, warm_exc = ops.run_op(client, ("get", (1, 3, 1, 1)))
             if warm_exc is not None:
-                raise world.HarnessError("warm-up exchange failed: %r" % (warm_exc,))
+                raise world.ScenarioUnavailable("warm-up exchange failed: %r" % (warm_exc,))
             ag.reboot()
             sender.calls = []
         log0 = len(ag.log)
